@@ -1,7 +1,201 @@
-(* Abi_proofs.v — proofs for C29 (in progress). *)
+(* Abi_proofs.v — proofs for C29.
+   Part A: linear codec round trip (dec after enc).
+   Part B: the reflected type (canon t) and the native type t produce the same bytes.
+   Part C: NewABI's description of t, read back by getReflectType, is canon t. *)
 From Coq Require Import List NArith ZArith Bool String Ascii Lia.
+From Coq Require Import DecimalString DecimalN DecimalPos.
+From Coq Require Import ZifyN ZifyNat ZifyBool.
 Import ListNotations.
 From HV Require Import Lib.Bytes Model.Abi.
+Local Open Scope N_scope.
 
-Lemma fapp_nil_r fs : fapp fs FNil = fs.
-Proof. induction fs as [|i t r IH]; cbn [fapp]; [reflexivity | now rewrite IH]. Qed.
+(* ================================================================== Part A *)
+
+Lemma take_app (a r : bytes) : take (List.length a) (a ++ r) = Some (a, r).
+Proof.
+  induction a as [|x a IH]; cbn [List.length take app]; [reflexivity|].
+  now rewrite IH.
+Qed.
+
+Lemma be_length k n : List.length (be k n) = k.
+Proof.
+  revert n; induction k as [|k IH]; intros n; cbn [be]; [reflexivity|].
+  rewrite app_length, IH. cbn. lia.
+Qed.
+
+Lemma unbe_snoc a b : unbe (a ++ [b]) = unbe a * 256 + b.
+Proof. unfold unbe. rewrite fold_left_app. reflexivity. Qed.
+
+Lemma unbe_be k n : n < 256 ^ N.of_nat k -> unbe (be k n) = n.
+Proof.
+  revert n; induction k as [|k IH]; intros n Hn.
+  - cbn in *. change (unbe []) with 0. lia.
+  - cbn [be]. rewrite unbe_snoc, IH.
+    + pose proof (N.div_mod n 256 ltac:(lia)). lia.
+    + rewrite Nat2N.inj_succ, N.pow_succ_r' in Hn.
+      apply N.div_lt_upper_bound; lia.
+Qed.
+
+Lemma pow256_vals :
+  pow256 1 = 256%Z /\ pow256 2 = 65536%Z /\ pow256 4 = 4294967296%Z /\ pow256 8 = 18446744073709551616%Z.
+Proof. vm_compute. auto. Qed.
+
+Lemma npow_vals :
+  256 ^ N.of_nat 1 = 256 /\ 256 ^ N.of_nat 2 = 65536 /\ 256 ^ N.of_nat 4 = 4294967296
+  /\ 256 ^ N.of_nat 8 = 18446744073709551616.
+Proof. vm_compute. auto. Qed.
+
+Lemma zmod_neg z M : (- M <= z < 0)%Z -> (z mod M = z + M)%Z.
+Proof.
+  intros H. symmetry. apply Z.mod_unique with (q := (-1)%Z); lia.
+Qed.
+
+(* integers: k bytes, modulus M = 256^k *)
+Lemma int_roundtrip (k : nat) (M : Z) (sg : bool) (z : Z) (rest : bytes) :
+  pow256 k = M -> Z.of_N (256 ^ N.of_nat k) = M -> (2 <= M)%Z -> (M mod 2 = 0)%Z ->
+  (if sg then (Z.leb (- (M / 2)) z && Z.ltb z (M / 2))%Z else (Z.leb 0 z && Z.ltb z M)%Z) = true ->
+  match take k (be k (Z.to_N (z mod M)) ++ rest) with
+  | Some (h, r) =>
+      let u := Z.of_N (unbe h) in
+      Some (VNum (if sg && Z.leb M (2 * u) then (u - M)%Z else u), r)
+  | None => None
+  end = Some (VNum z, rest).
+Proof.
+  intros HM HN H2 Hev Hr.
+  pose proof (take_app (be k (Z.to_N (z mod M))) rest) as Ht.
+  rewrite be_length in Ht. rewrite Ht. cbn zeta.
+  assert (Hlt : (0 <= z mod M < M)%Z) by (apply Z.mod_pos_bound; lia).
+  rewrite unbe_be by (remember (256 ^ N.of_nat k) as W; lia).
+  rewrite Z2N.id by lia.
+  pose proof (Z.div_mod M 2 ltac:(lia)) as Hd.
+  destruct sg; cbn [andb]; cbn [andb] in Hr.
+  - apply andb_true_iff in Hr as [Hr1 Hr2]. apply Z.leb_le in Hr1. apply Z.ltb_lt in Hr2.
+    destruct (Z.leb_spec 0 z) as [Hz|Hz].
+    + rewrite Z.mod_small by lia.
+      destruct (Z.leb_spec M (2 * z)); [lia | reflexivity].
+    + rewrite zmod_neg by lia.
+      destruct (Z.leb_spec M (2 * (z + M))); [|lia].
+      replace (z + M - M)%Z with z by lia. reflexivity.
+  - apply andb_true_iff in Hr as [Hr1 Hr2]. apply Z.leb_le in Hr1. apply Z.ltb_lt in Hr2.
+    rewrite Z.mod_small by lia. reflexivity.
+Qed.
+
+Lemma dec_enc_prim p v bs rest :
+  wt_prim p v = true -> enc_prim p v = Some bs -> dec_prim p (bs ++ rest) = Some (v, rest).
+Proof.
+  destruct pow256_vals as (P1 & P2 & P4 & P8).
+  destruct npow_vals as (N1 & N2 & N4 & N8).
+  intros Hw He.
+  destruct p; destruct v as [z|b|s|l]; try discriminate Hw; cbn [enc_prim] in He;
+    try (injection He as <-; unfold dec_prim; cbn [prim_bytes prim_signed wt_prim] in *).
+  - apply (int_roundtrip 1 256 false z rest P1); [rewrite N1| |reflexivity|rewrite <- P1]; try reflexivity; try lia; exact Hw.
+  - apply (int_roundtrip 2 65536 false z rest P2); [rewrite N2| |reflexivity|rewrite <- P2]; try reflexivity; try lia; exact Hw.
+  - apply (int_roundtrip 4 4294967296 false z rest P4); [rewrite N4| |reflexivity|rewrite <- P4]; try reflexivity; try lia; exact Hw.
+  - apply (int_roundtrip 8 18446744073709551616 false z rest P8); [rewrite N8| |reflexivity|rewrite <- P8]; try reflexivity; try lia; exact Hw.
+  - apply (int_roundtrip 1 256 true z rest P1); [rewrite N1| |reflexivity|rewrite <- P1]; try reflexivity; try lia; exact Hw.
+  - apply (int_roundtrip 2 65536 true z rest P2); [rewrite N2| |reflexivity|rewrite <- P2]; try reflexivity; try lia; exact Hw.
+  - apply (int_roundtrip 4 4294967296 true z rest P4); [rewrite N4| |reflexivity|rewrite <- P4]; try reflexivity; try lia; exact Hw.
+  - apply (int_roundtrip 8 18446744073709551616 true z rest P8); [rewrite N8| |reflexivity|rewrite <- P8]; try reflexivity; try lia; exact Hw.
+  - destruct b; reflexivity.
+  - cbn [wt_prim] in Hw. apply andb_true_iff in Hw as [Hl _].
+    rewrite Hl in He. injection He as <-. unfold dec_prim.
+    cbn [app take].
+    assert (Hu : unbe [(len s / 256) mod 256; len s mod 256] = len s).
+    { unfold unbe. cbn [fold_left]. apply N.leb_le in Hl.
+      rewrite (N.mod_small (len s / 256)) by (apply N.div_lt_upper_bound; lia).
+      pose proof (N.div_mod (len s) 256 ltac:(lia)). lia. }
+    rewrite Hu. unfold len. rewrite Nat2N.id, take_app. reflexivity.
+Qed.
+
+(* sequences *)
+Lemma enc_seq_length_le f l bs :
+  enc_seq true f l = Some bs -> (List.length l <= List.length bs)%nat.
+Proof.
+  revert bs; induction l as [|v l IH]; intros bs H; cbn [enc_seq] in H.
+  - injection H as <-. cbn. lia.
+  - destruct (f v) as [b|]; [|discriminate]. destruct (enc_seq true f l) as [bs'|]; [|discriminate].
+    cbn [andb] in H. destruct b as [|x b]; [discriminate|]. injection H as <-.
+    specialize (IH _ eq_refl). cbn [List.length app]. rewrite app_length. lia.
+Qed.
+
+Lemma dec_enc_seq strict (f : value -> option bytes) (g : bytes -> option (value * bytes)) l :
+  Forall (fun v => forall b rest, f v = Some b -> g (b ++ rest) = Some (v, rest)) l ->
+  forall bs rest, enc_seq strict f l = Some bs ->
+  dec_seq strict g (List.length l) (bs ++ rest) = Some (l, rest).
+Proof.
+  induction 1 as [|v l Hv _ IH]; intros bs rest He; cbn [enc_seq] in He.
+  - injection He as <-. reflexivity.
+  - destruct (f v) as [b|] eqn:Hf; [|discriminate]. destruct (enc_seq strict f l) as [bs'|] eqn:Hs; [|discriminate].
+    cbn [List.length dec_seq].
+    destruct (strict && match b with [] => true | _ => false end) eqn:Hz; [discriminate|].
+    injection He as <-. rewrite <- app_assoc, (Hv _ _ eq_refl).
+    replace (strict && (List.length (bs' ++ rest) =? List.length (b ++ bs' ++ rest))%nat) with false.
+    + now rewrite (IH _ _ eq_refl).
+    + symmetry. destruct strict; [|reflexivity]. cbn [andb] in *. destruct b as [|x b]; [discriminate|].
+      apply Nat.eqb_neq. cbn [List.length app]. rewrite !app_length. lia.
+Qed.
+
+Lemma forallb_Forall {A} (p : A -> bool) l : forallb p l = true -> Forall (fun x => p x = true) l.
+Proof. rewrite forallb_forall. apply Forall_forall. Qed.
+
+(* the round trip, by mutual induction on types / field lists *)
+Definition dec_enc_P (t : ty) : Prop :=
+  forall v bs rest, wt t v = true -> enc t v = Some bs -> dec t (bs ++ rest) = Some (v, rest).
+Definition dec_enc_P0 (fs : fields) : Prop :=
+  forall vs bs rest, wt_fields fs vs = true -> enc_fields fs vs = Some bs -> dec_fields fs (bs ++ rest) = Some (vs, rest).
+
+Lemma dec_enc_mut : (forall t, dec_enc_P t) /\ (forall fs, dec_enc_P0 fs).
+Proof.
+  apply ty_fields_ind; unfold dec_enc_P, dec_enc_P0.
+  - (* TPrim *) intros p v bs rest Hw He. cbn [wt enc dec] in *. now apply dec_enc_prim.
+  - (* TAddress *) intros v bs rest Hw He. cbn [wt enc dec] in *.
+    destruct v as [| | |l]; try discriminate. apply andb_true_iff in Hw as [Hl Hall].
+    rewrite Hl in He.
+    assert (H33 : List.length l = 33%nat) by (apply N.eqb_eq in Hl; unfold len in Hl; lia).
+    rewrite <- H33.
+    rewrite (dec_enc_seq false (enc_prim U8) (dec_prim U8) l) with (bs := bs); [reflexivity| |exact He].
+    apply forallb_Forall in Hall. eapply Forall_impl; [|exact Hall].
+    intros a Ha b r Hb. cbn beta in Ha. now apply dec_enc_prim.
+  - (* TNamed *) intros nm p v bs rest Hw He. cbn [wt enc dec] in *. now apply dec_enc_prim.
+  - (* TSlice *) intros t IH v bs rest Hw He. cbn [wt enc dec] in *.
+    destruct v as [| | |l]; try discriminate. apply andb_true_iff in Hw as [Hl Hall].
+    apply N.leb_le in Hl.
+    destruct (max_int32 <? len l) eqn:Hmx; [apply N.ltb_lt in Hmx; lia|].
+    destruct (enc_seq true (enc t) l) as [be_|] eqn:Hs; [|discriminate]. injection He as <-.
+    rewrite <- app_assoc.
+    pose proof (take_app (be 4 (len l)) (be_ ++ rest)) as Ht. rewrite be_length in Ht. rewrite Ht.
+    cbn zeta.
+    destruct npow_vals as (_ & _ & N4 & _).
+    rewrite unbe_be by (rewrite N4; unfold max_int32 in Hl; lia).
+    rewrite Hmx.
+    pose proof (enc_seq_length_le _ _ _ Hs) as Hle.
+    destruct (len (be_ ++ rest) <? len l) eqn:Hlt.
+    { apply N.ltb_lt in Hlt. unfold len in Hlt. rewrite app_length in Hlt. lia. }
+    unfold len at 1. rewrite Nat2N.id.
+    rewrite (dec_enc_seq true (enc t) (dec t) l) with (bs := be_); [reflexivity| |exact Hs].
+    apply forallb_Forall in Hall. eapply Forall_impl; [|exact Hall].
+    intros a Ha b r Hb. cbn beta in Ha. now apply IH.
+  - (* TArray *) intros n t IH v bs rest Hw He. cbn [wt enc dec] in *.
+    destruct v as [| | |l]; try discriminate. apply andb_true_iff in Hw as [Hl Hall].
+    rewrite Hl in He. apply N.eqb_eq in Hl. subst n. unfold len. rewrite Nat2N.id.
+    rewrite (dec_enc_seq false (enc t) (dec t) l) with (bs := bs); [reflexivity| |exact He].
+    apply forallb_Forall in Hall. eapply Forall_impl; [|exact Hall].
+    intros a Ha b r Hb. cbn beta in Ha. now apply IH.
+  - (* TStruct *) intros nm fs IH v bs rest Hw He. cbn [wt enc dec] in *.
+    destruct v as [| | |l]; try discriminate. now rewrite (IH _ _ _ Hw He).
+  - (* FNil *) intros vs bs rest Hw He. cbn [wt_fields enc_fields dec_fields] in *.
+    destruct vs; [|discriminate]. injection He as <-. reflexivity.
+  - (* FCons *) intros i t IHt rest_f IHf vs bs rest Hw He. cbn [wt_fields enc_fields dec_fields] in *.
+    destruct (f_ser i).
+    + destruct vs as [|v vs]; [discriminate|]. apply andb_true_iff in Hw as [Hwv Hwr].
+      destruct (enc t v) as [a|] eqn:Ha; [|discriminate].
+      destruct (enc_fields rest_f vs) as [b|] eqn:Hb; [|discriminate]. injection He as <-.
+      rewrite <- app_assoc, (IHt _ _ _ Hwv Ha), (IHf _ _ _ Hwr Hb). reflexivity.
+    + now apply IHf.
+Qed.
+
+Lemma dec_enc t v bs rest :
+  wt t v = true -> enc t v = Some bs -> dec t (bs ++ rest) = Some (v, rest).
+Proof. apply (proj1 dec_enc_mut). Qed.
+
+(* a well-typed value is rejected by the codec only for a slice of zero-length elements *)
